@@ -98,7 +98,89 @@ def extract(repo):
     if not isinstance(dp, ast.Dict) or not all(isinstance(k, ast.Constant) and isinstance(k.value, str) for k in dp.keys):
         raise Refusal('%s: default_parameters is not a dict literal with string keys' % path)
     out['default_parameter_keys'] = [k.value for k in dp.keys]
+    out['chunk_consts'] = chunk_constants(cls, path)
+    out['flags'] = repair_flags(cls, path)
     return out
+
+
+CHUNK_METHODS = ['write_parameters', 'write_timesteps', 'read_generator', 'write_generator', 'read_times', 'write_times',
+                 'write_selection', 'read_meshmaker_rz2d', 'write_meshmaker_rz2d', 'read_meshmaker_xyz', 'write_meshmaker_xyz',
+                 'read_meshmaker_minc', 'write_meshmaker_minc']
+
+
+def _is_len_vals(n):
+    return isinstance(n, ast.Call) and isinstance(n.func, ast.Name) and n.func.id == 'len' and len(n.args) == 1
+
+
+def _intconst(n):
+    if isinstance(n, ast.Constant) and not isinstance(n.value, bool):
+        if isinstance(n.value, int): return n.value
+        if isinstance(n.value, float) and n.value == int(n.value): return int(n.value)
+    return None
+
+
+def chunk_constants(cls, path):
+    """method -> sorted distinct values-per-line constants: `i * K`, `(i + 1) * K`, `ceil(n / K.)`,
+    `len(vals) < K`, `K - len(vals)`"""
+    out = []
+    for m in CHUNK_METHODS:
+        fn = _method(cls, m, path)
+        ks = set()
+        for n in ast.walk(fn):
+            if isinstance(n, ast.BinOp) and isinstance(n.op, ast.Mult):
+                for a, b in ((n.left, n.right), (n.right, n.left)):
+                    k = _intconst(b)
+                    if k is not None and any(isinstance(x, ast.Name) and x.id == 'i' for x in ast.walk(a)): ks.add(k)
+            if isinstance(n, ast.Call) and isinstance(n.func, ast.Name) and n.func.id == 'ceil' and len(n.args) == 1:
+                a = n.args[0]
+                if not (isinstance(a, ast.BinOp) and isinstance(a.op, ast.Div) and _intconst(a.right) is not None):
+                    raise Refusal('%s: %s: ceil() argument %s is not <n> / <constant>' % (path, m, ast.unparse(a)))
+                ks.add(_intconst(a.right))
+            if isinstance(n, ast.Compare) and len(n.ops) == 1 and isinstance(n.ops[0], ast.Lt) and _is_len_vals(n.left):
+                k = _intconst(n.comparators[0])
+                if k is None: raise Refusal('%s: %s: %s' % (path, m, ast.unparse(n)))
+                ks.add(k)
+            if isinstance(n, ast.BinOp) and isinstance(n.op, ast.Sub) and _is_len_vals(n.right):
+                k = _intconst(n.left)
+                if k is None: raise Refusal('%s: %s: %s' % (path, m, ast.unparse(n)))
+                ks.add(k)
+        if not ks: raise Refusal('%s: %s: no values-per-line constant found' % (path, m))
+        out.append((m, sorted(ks)))
+    return out
+
+
+ECHO_REINFER = ("if self.extra_precision:\n    self._echo_extra_precision = any([section in self._sections for section in self.extra_precision])\n"
+                "    self.update_read_write_functions()")
+PRINT_BLOCK_OLD = ("if self.parameter['print_block'] is not None and self.parameter['print_block'].strip() == '':\n"
+                   "    self.parameter['print_block'] = None")
+PRINT_BLOCK_NEW = ("if self.parameter['print_block'] is not None:\n    if self.parameter['print_block'].strip() == '':\n"
+                   "        self.parameter['print_block'] = None\n    elif len(self.parameter['print_block']) == 5:\n"
+                   "        self.parameter['print_block'] = fix_blockname(self.parameter['print_block'])")
+
+
+def _mentions(node, attr):
+    return any(isinstance(n, ast.Attribute) and n.attr == attr for n in ast.walk(node)) or \
+        any(isinstance(n, ast.Constant) and n.value == attr for n in ast.walk(node))
+
+
+def repair_flags(cls, path):
+    """Two statements of the readers exist in a defective and a repaired form (see the C01 findings);
+    the model follows whichever form the source has.  Any third form is refused."""
+    flags = {}
+    fn = _method(cls, 'read', path)
+    st = [n for n in fn.body if isinstance(n, (ast.If, ast.Assign, ast.Expr)) and _mentions(n, '_echo_extra_precision') or
+          (isinstance(n, (ast.If, ast.Assign)) and _mentions(n, 'echo_extra_precision'))]
+    if not st: flags['read_reinfers_echo'] = False
+    elif len(st) == 1 and ast.unparse(st[0]) == ECHO_REINFER: flags['read_reinfers_echo'] = True
+    else: raise Refusal('%s: read(): statement about echo_extra_precision has an unknown form: %s' % (path, ast.unparse(st[0])[:200]))
+    fn = _method(cls, 'read_parameters', path)
+    st = [n for n in fn.body if isinstance(n, ast.If) and _mentions(n, 'print_block')]
+    if len(st) != 1: raise Refusal('%s: read_parameters(): expected one `if` about print_block, found %d' % (path, len(st)))
+    txt = ast.unparse(st[0])
+    if txt == PRINT_BLOCK_OLD: flags['read_fixes_print_block'] = False
+    elif txt == PRINT_BLOCK_NEW: flags['read_fixes_print_block'] = True
+    else: raise Refusal('%s: read_parameters(): the print_block statement has an unknown form: %s' % (path, txt[:300]))
+    return flags
 
 
 def emit(x):
@@ -110,6 +192,11 @@ def emit(x):
         t.append('Definition %s : list string := %s.' % (k, sl(x[k])))
     for k in ('read_fn_names', 'write_fn_names', 'skip_fn_names', 'xp_read_fn_names', 'xp_write_fn_names', 'present_exprs'):
         t.append('Definition %s : list (string * string) := %s.' % (k, pl(x[k])))
+    t.append('From Coq Require Import ZArith.')
+    t.append('Definition chunk_consts : list (string * list Z) := [%s].' %
+             '; '.join('(%s, [%s])' % (coq_string(m), '; '.join('%d%%Z' % k for k in ks)) for m, ks in x['chunk_consts']))
+    for k, v in sorted(x['flags'].items()):
+        t.append('Definition %s : bool := %s.' % (k, 'true' if v else 'false'))
     return '\n'.join(t) + '\n'
 
 
